@@ -497,6 +497,8 @@ def run(sess):
     ob_convert_indices(sess)
     from . import c01_slice
     c01_slice.run(sess)
+    from . import c01_list
+    c01_list.run(sess)
 
 
 META = {
@@ -597,6 +599,9 @@ def replay_witness(w, rp):
     elif k == 'selection':
         from . import c01_slice
         return c01_slice.replay_witness(w, rp)
+    elif k == 'list_index':
+        from . import c01_list
+        return c01_list.replay_witness(w, rp)
     if not cases or expect is None:
         return {'reproduced': False, 'role': role, 'detail': f'no small native replay for {w}'}
     got = {}
